@@ -113,7 +113,7 @@ fn run_branch(filter: Option<&str>, branch: u8, r: &mut Rd, data: &[u8], st: &mu
                 let guide = if k & 128 != 0 && kind != OpKind::Isolate { Some(r.u16()) } else { None };
                 ops.push(HOp { kind, u, v: if kind == OpKind::Isolate { u } else { v }, e: (p >> 6) as EV, pu: PROVS[(p & 7) as usize], pv: if kind == OpKind::Isolate { Prov::Orig } else { PROVS[((p >> 3) & 7) as usize] }, guide });
             }
-            let c = HistCase { n, ops };
+            let c = HistCase { n, ops, prelude: vec![] };
             for w in [Which::C03, Which::C01, Which::C02] {
                 if filter.map_or(true, |f| f == w.id()) {
                     hist::run_all(&c, w, st, false, None);
